@@ -85,6 +85,22 @@ theorem lift_error_kinds (env : KeyEnv) (ctx : Ctx) (ms : Ms) :
   cases withinResourceLimits env ctx ms <;> cases hasMixedTimelocks env ctx ms <;>
     cases liftRaw ms <;> simp
 
+/-- what `J liftrefusal` judges about raw key hashes, for the model: a script that mentions one
+(specification predicate `mentionsRaw`) is never shown as a policy, and `RawDescriptorLift` is
+reported only for such scripts -/
+theorem raw_key_hash_refused (env : KeyEnv) (ctx : Ctx) (ms : Ms) :
+    (mentionsRaw ms = true → ∀ p, lift env ctx ms ≠ .ok p)
+    ∧ (lift env ctx ms = .error .rawDescriptorLift → mentionsRaw ms = true) := by
+  rw [mentionsRaw_eq]
+  constructor
+  · intro hm p hp
+    have := ((lift_ok_iff env ctx ms).mp ⟨p, hp⟩).2.2
+    simp [this] at hm
+  · rw [lift_eq, ← liftRaw_isSome]
+    unfold liftCheck
+    cases withinResourceLimits env ctx ms <;> cases hasMixedTimelocks env ctx ms <;>
+      cases liftRaw ms <;> simp
+
 /-! ## T1 — the lifted policy has the script's truth table -/
 
 /-- T1: in every world the lifted policy holds iff the script's condition does -/
@@ -202,6 +218,20 @@ theorem liftDesc_sem (env : KeyEnv) (d : Desc) (p : Policy) (h : liftDesc env d 
           simp only [holds, holdsA, countA, normalized_holdsA, keyPol, World.val, semDesc, ← h1]
           cases W.canSign k <;> simp
           exact dec_one_idem _
+
+/-- `Liftable for TapTree` on its own (no internal key): some leaf's condition holds -/
+theorem liftTapTree_sem (env : KeyEnv) (leaves : List Ms) (p : Policy)
+    (h : liftTapTree env leaves = .ok p) (W : World) : holds W p = leaves.any (sem W) := by
+  simp only [liftTapTree] at h
+  cases hl : liftLeaves env leaves with
+  | error e => simp [hl] at h
+  | ok ps =>
+    have ⟨h1, _⟩ := liftLeaves_any env W leaves ps hl
+    cases ps with
+    | nil => simp [hl] at h
+    | cons q qs =>
+      simp [hl] at h; subst h
+      rw [holds, normalized_holdsA, holdsA, h1]
 
 /-- taproot, spelled out: the internal key is never dropped and no leaf is invented or hidden -/
 theorem lift_tr (env : KeyEnv) (k : Key) (leaves : List Ms) (p : Policy)
